@@ -3,6 +3,7 @@ package main
 import (
 	"fmt"
 	"go/types"
+	"regexp"
 	"sort"
 	"strings"
 
@@ -206,6 +207,8 @@ func c13(c *Check) {
 	}
 	sort.Slice(expFns, func(i, j int) bool { return funcName(expFns[i]) < funcName(expFns[j]) })
 	exportLoopsComplete(c, "C13/export-loops-complete", expFns)
+	c.Rule("C13/validation-holds-for-updated-clients", "GenesisState.Validate runs ClientState.Validate on every exported client; a condition it places on a field that header updates overwrite must be one the update path enforces on the new value (audited pairs below) — otherwise a client that was legitimately updated no longer passes the module's own genesis validation", 3)
+	validationVsUpdates(c, "C13/validation-holds-for-updated-clients")
 
 	c.Rule("C13/genesis-fields", "every field of each module GenesisState is populated by ExportGenesis and consumed by InitGenesis (rvesting From/InitReward are init-only funding instructions, audited)", 12)
 	genesisFields(c, "C13/genesis-fields", "x/xibc/types.GenesisState", "x/xibc.ExportGenesis", "x/xibc.InitGenesis", nil)
@@ -456,4 +459,83 @@ func freshDecodeRule(c *Check, rule string) {
 			c.Req(inLoop, rule, funcName(fn)+": "+cs.Name[strings.LastIndex(cs.Name, ".")+1:]+" target", cs.Ins.Pos(), "allocated per iteration", "decode target is allocated outside the loop and reused across iterations: repeated fields accumulate, so later entries carry the data of earlier ones (exported state differs from stored state)")
 		}
 	}
+}
+
+// validationVsUpdates: see C13/validation-holds-for-updated-clients.
+func validationVsUpdates(c *Check, rule string) {
+	lc := "x/xibc/clients/light-clients/"
+	type allowed struct{ guard, needFn, needGuard, why string }
+	audited := map[string][]allowed{
+		"bsc": {{"reject (bsc/types.(Header).ValidateBasic($0.Header) != nil)", lc + "bsc/types.checkValidity", "reject (bsc/types.(Header).ValidateBasic($4) != nil)", "every header that becomes the head passed ValidateBasic in checkValidity"}},
+		"eth": {{"reject (eth/types.(Header).ValidateBasic($0.Header) != nil)", lc + "eth/types.checkValidity", "reject (eth/types.(Header).ValidateBasic($5) != nil)", "every header that becomes the head passed ValidateBasic in checkValidity"}},
+		"tendermint": {{"reject ($0.LatestHeight.RevisionHeight == 0)", "", "", "the latest height is only ever raised (C07 store: latest-height-only-raised)"}},
+	}
+	fieldRe := regexp.MustCompile(`\$0\.([A-Za-z_][A-Za-z0-9_]*)`)
+	for _, t := range []string{"bsc", "eth", "tendermint"} {
+		// fields of the client state that the header-update path overwrites
+		updated := map[string]bool{}
+		for _, fname := range []string{"update", "ClientState.CheckHeaderAndUpdateState"} {
+			fn := c.P.FuncOpt(lc + t + "/types." + fname)
+			if fn == nil {
+				continue
+			}
+			c.Touch(fn)
+			for _, b := range fn.Blocks {
+				for _, ins := range b.Instrs {
+					st, ok := ins.(*ssa.Store)
+					if !ok {
+						continue
+					}
+					for a := st.Addr; ; {
+						fa, isF := a.(*ssa.FieldAddr)
+						if !isF {
+							break
+						}
+						if s := derefStruct(fa.X.Type()); s != nil {
+							if nt, ok := deref(fa.X.Type()).(*types.Named); ok && nt.Obj().Name() == "ClientState" {
+								updated[s.Field(fa.Field).Name()] = true
+							}
+						}
+						a = fa.X
+					}
+				}
+			}
+		}
+		val := c.F(lc + t + "/types.ClientState.Validate")
+		n := 0
+		for _, g := range c.P.FA(val).OwnGuards() {
+			gs := g.String()
+			touches := ""
+			for _, m := range fieldRe.FindAllStringSubmatch(gs, -1) {
+				if updated[m[1]] {
+					touches = m[1]
+				}
+			}
+			if touches == "" {
+				continue // a field fixed at create / upgrade time, validated by the proposal's ValidateBasic
+			}
+			n++
+			var hit *allowed
+			for i := range audited[t] {
+				if audited[t][i].guard == gs {
+					hit = &audited[t][i]
+				}
+			}
+			construct := t + " ClientState.Validate: " + trunc(gs)
+			if hit == nil {
+				c.Bad(rule, construct, g.If.Pos(), "Validate() constrains field "+touches+", which header updates overwrite, and the pair is not audited: an updated client may fail the module's own genesis validation after export")
+				continue
+			}
+			ok := hit.needFn == "" || hasGuardQuiet(c, hit.needFn, hit.needGuard)
+			c.Req(ok, rule, construct, g.If.Pos(), "audited: "+hit.why, "audited condition no longer enforced on the update path: "+hit.needGuard+" missing in "+hit.needFn)
+		}
+		c.Req(len(updated) > 0, rule, t+": update path overwrites client-state fields", val.Pos(), fmt.Sprint(len(updated), " field(s), ", n, " constrained by Validate"), "no field store found in the update path of "+t+" (anchor drifted)")
+	}
+}
+
+func deref(t types.Type) types.Type {
+	if p, ok := t.Underlying().(*types.Pointer); ok {
+		return p.Elem()
+	}
+	return t
 }
